@@ -46,6 +46,25 @@ V6_DELETES = ["V6_api.delete_func.*", "V6_api.fn:Module::delete_func", "V6_api.F
 ENCODE_GLUE = "Module::encode_internal (src/ir/module/mod.rs): the call sites of recalculate_ids / fix_op_id_mapping and the per-section emission loops are not under contract"
 
 PROPS = {
+    "C04": {
+        "title": "Encoding is deterministic",
+        "units": ["V7_types"],
+        "census": True,
+        "obligations": ["V7_types.ModuleTypes.new.*", "V7_types.fn:ModuleTypes::new", "V7_types.add_type.*", "V7_types.fn:ModuleTypes::add_type"],
+        "glue": ["the HashMap iteration sites listed as UNCOVERED in evidence.coverage.hashmap_iteration_census (the per-block resolution maps of resolve_special_instrumentation, ModuleTypes::iter) are in code that is not under contract",
+                 "everything else in encode_internal walks Vecs in index order; that claim is by reading, not by proof"],
+        "design_ref": "DESIGN.md §5 C04",
+        "level_text": "In the verifier's logic the iteration order of a HashMap is unspecified, so a function that iterates one verifies only if its postcondition pins the result whatever the order. That obligation is discharged for ModuleTypes::new (the lookup map maps each type to the least id carrying it) and add_type is a function of the map; the other iteration sites are listed, not proved.",
+    },
+    "C13": {
+        "title": "Added types are exact and deduplicated",
+        "units": ["V7_types"],
+        "obligations": ["V7_types.add_*", "V7_types.fn:ModuleTypes::add_*", "V7_types.ModuleTypes.*", "V7_types.fn:ModuleTypes::new", "V7_types.fn:ModuleTypes::get", "V7_types.fn:ModuleTypes::len", "V7_types.fn:RecGroup::new"],
+        "glue": ["recursion-group emission in encode_internal and Module::encode_type (IR type -> wasm-encoder SubType) are not under contract",
+                 "TRUSTED: the hand-written PartialEq / Hash of `Types` implement equality up to the tag (key_of), and the three HashMap<Types,TypeID> operations behave as a map over that key (contracts of tm_contains_key / tm_entry_or_insert / tm_insert / tm_get)"],
+        "design_ref": "DESIGN.md §4 V7, §5 C13",
+        "level_text": "Over an abstract map keyed by 'type up to tag': every adder returns an id that designates exactly the requested type, re-uses the id of an identical type, gives a new type the next id in its own implicit group, and leaves every existing (id, type) pair unchanged; for all tables and all types.",
+    },
     "C05": {
         "title": "Encoding again without edits gives the same bytes",
         "units": ["V2_reindex"],
